@@ -1175,6 +1175,9 @@ pub struct EnvCase {
     pub n_tests: usize,
     /// test case (index) that also changes shell state, so that the state file is not trivial
     pub state_change_at: Option<usize>,
+    /// how the documents are named on the command line: "abs" | "rel" | "dotdot"
+    #[serde(default)]
+    pub path_style: String,
 }
 
 const ENV_PROBE_VARS: &[&str] = &["SCRUT_TEST", "TESTDIR", "TESTFILE", "TESTSHELL", "TMPDIR", "LANG", "LANGUAGE", "LC_ALL", "TZ", "COLUMNS", "CDPATH", "GREP_OPTIONS"];
@@ -1245,8 +1248,18 @@ fn check_env_case(c: &EnvCase) -> Result<Option<String>, String> {
         }
         _ => {}
     }
-    for (p, _) in &docs {
-        cmd.arg(p);
+    // the documents as named on the command line (scrut runs in `base`)
+    let given: Vec<String> = docs
+        .iter()
+        .enumerate()
+        .map(|(d, (p, _))| match c.path_style.as_str() {
+            "rel" => format!("docs/d{}/{}", d, fname),
+            "dotdot" => format!("probes/../docs/d{}/{}", d, fname),
+            _ => p.display().to_string(),
+        })
+        .collect();
+    for g in &given {
+        cmd.arg(g);
     }
     cmd.env_remove("SCRUT_VERIF_SCENARIO").env_remove("SCRUT_VERIF_LOG").env("TMPDIR", &tmp).env("HOME", "/nonexistent-home").current_dir(&base);
     cmd.stdin(Stdio::null()).stdout(Stdio::piped()).stderr(Stdio::piped());
@@ -1285,7 +1298,7 @@ fn check_env_case(c: &EnvCase) -> Result<Option<String>, String> {
                 ("GREP_OPTIONS", "".into()),
             ];
             if md {
-                want.push(("SCRUT_TEST", format!("{}:{}", path.display(), line)));
+                want.push(("SCRUT_TEST", format!("{}:{}", given[d], line)));
             }
             for (key, val) in &want {
                 if g(key) != val {
@@ -1374,7 +1387,8 @@ fn run_c18_real_env(_tier: &str) -> RealReport {
         for dirmode in ["tmp", "work", "keep"] {
             for n_docs in [1usize, 2, 3] {
                 for (n_tests, sc) in [(1usize, None), (3, None), (3, Some(0)), (4, Some(1))] {
-                    cases.push(EnvCase { real_env: true, format: format.into(), dirmode: dirmode.into(), n_docs, n_tests, state_change_at: sc });
+                    let path_style = ["abs", "rel", "dotdot"][(n_docs + n_tests + sc.unwrap_or(2)) % 3];
+                    cases.push(EnvCase { real_env: true, format: format.into(), dirmode: dirmode.into(), n_docs, n_tests, state_change_at: sc, path_style: path_style.into() });
                 }
             }
         }
@@ -1383,7 +1397,7 @@ fn run_c18_real_env(_tier: &str) -> RealReport {
     let mut reported = 0;
     for c in &cases {
         rep.runs += 1;
-        rep.signatures.push(format!("R|env|{}|{}|{}|{}|{:?}", c.format, c.dirmode, c.n_docs, c.n_tests, c.state_change_at));
+        rep.signatures.push(format!("R|env|{}|{}|{}|{}|{:?}|{}", c.format, c.dirmode, c.n_docs, c.n_tests, c.state_change_at, c.path_style));
         match check_env_case(c) {
             Err(e) => rep.harness_errors.push(format!("[real env] {}", e)),
             Ok(None) => {}
